@@ -267,6 +267,11 @@ func c06APIReturnsSrc(r *an.Run) {
 			continue
 		}
 		found = true
+		// the tested value is nil unless a change produced a file: its sources are nil and results of
+		// Change.Replace — not the parsed input, which is never nil
+		if why := nilUnlessReplaced(c.Subj, 0); why != "" {
+			r.Fail(short(f)+"|fout-nil-means-unmatched", c.If.Pos(), "the value File.Apply tests against nil is not \"nil unless a change produced a file\": %s — for a file no change applies to it is never nil, so src is never handed back", why)
+		}
 		ret := an.ReturnOf(c.Target)
 		good := ret != nil && ret.Results[0] == ssa.Value(src) && an.IsNilConst(ret.Results[1])
 		r.Check(good, short(f)+"|fout-nil", c.If.Pos(), "when no change produced a file (fout == nil) File.Apply returns its src parameter itself and a nil error")
@@ -282,4 +287,42 @@ func c06APIReturnsSrc(r *an.Run) {
 	}
 	r.Check(found, short(f)+"|fout-nil-test", f.Pos(), "File.Apply tests whether any change produced a file")
 	_ = token.NoPos
+}
+
+// nilUnlessReplaced: every source of the *ast.File value v (through phis and
+// through the result of a private helper) is the nil constant or a result of
+// Change.Replace. It returns "" when that holds.
+func nilUnlessReplaced(v ssa.Value, depth int) string {
+	if depth > 3 {
+		return "too deep"
+	}
+	for _, l := range phiLeaves(v) {
+		if an.IsNilConst(l) {
+			continue
+		}
+		ex, ok := l.(*ssa.Extract)
+		if !ok {
+			return "one of its sources is " + an.Describe(l)
+		}
+		call, ok := ex.Tuple.(*ssa.Call)
+		if !ok {
+			return "one of its sources is " + an.Describe(l)
+		}
+		if an.IsCallTo(call, "(*"+enginePath+".Change).Replace") {
+			continue
+		}
+		h := an.StaticCallee(call)
+		if h == nil || !an.InModule(h) || h.Blocks == nil {
+			return "one of its sources is " + an.Describe(l)
+		}
+		for _, ret := range an.Returns(h) {
+			if ex.Index >= len(ret.Results) {
+				return "one of its sources is " + an.Describe(l)
+			}
+			if why := nilUnlessReplaced(ret.Results[ex.Index], depth+1); why != "" {
+				return "in " + short(h) + ": " + why
+			}
+		}
+	}
+	return ""
 }
